@@ -11,13 +11,15 @@ namespace
         void w(const char *d, unsigned n) { sink->on_write(d, n); }
         void e(const char *d, unsigned n) { sink->on_execute(d, n); }
         void s(int sig) { sink->on_signal(sig); }
-        void start(unsigned cap, unsigned h, TermSink *sk) override
+        void start(unsigned cap, unsigned h, TermSink *sk, const char *prompt, bool echo) override
         {
             sink = sk;
             vt.init(cap, h);
             vt.set_write_callback(igris::make_delegate(&TermXX::w, this));
             vt.set_execute_callback(igris::make_delegate(&TermXX::e, this));
             vt.set_signal_callback(igris::make_delegate(&TermXX::s, this));
+            vt.set_prompt(prompt);
+            vt.set_echo(echo ? 1 : 0);
             vt.init_step();
         }
         void feed(int c) override { vt.newdata((int16_t)c); }
